@@ -199,11 +199,17 @@ func (e *Engine) VerifyFunction(fn *ssa.Function) (rep *FuncReport) {
 				r.oblige(name, "ensures.fresh", outReach, cond, "result "+f+" is freshly allocated", fn.Pos())
 			}
 		}
+		guard := r.assumingGuard(env, ct)
 		for _, en := range ct.Ensures {
 			t := r.specBool(env, en.Expr, en.Text)
+			if guard != "true" {
+				t = fmt.Sprintf("(=> %s %s)", guard, t)
+			}
 			r.oblige(name, "ensures", outReach, t, en.Text, fn.Pos())
-			// later postconditions may build on earlier ones (each is proved on its own)
-			r.assume(outReach, t)
+			if ct.Cumulative {
+				// later postconditions may build on earlier ones (each is proved on its own)
+				r.assume(outReach, t)
+			}
 		}
 	}
 	if fn.Name() == "init" && outReach != "false" {
@@ -502,4 +508,12 @@ func (r *run) assumeLemmas(ct *Contract) {
 		r.assumed["lemma (proved separately): "+ln] = true
 		r.usedLemmas = append(r.usedLemmas, ln)
 	}
+}
+
+func (r *run) assumingGuard(env *specEnv, ct *Contract) string {
+	var gs []string
+	for _, a := range ct.Assuming {
+		gs = append(gs, r.specBool(env, a.Expr, a.Text))
+	}
+	return and(gs...)
 }
